@@ -18,7 +18,9 @@ from ..core import Check, MachineryError, Timeout, watchdog
 
 D = decimal.Decimal
 SCALARS = [0, 1, 5, -3, 12, 100, True, False, None, 0.5, 2.0, -0.25, 7.75, D("1.5"), D("6"), "", "0", "6", "-7", " 6 ", "6.5", "abc", "ab", "a",
-           "true", "null", "1e2", b"6", b"ab", b"\xff"]
+           "true", "null", "1e2", b"6", b"ab", b"\xff",
+           # numbers written with an exponent, and with more digits than places
+           "1e3", D("1E+3"), D("2.5E+2"), "12e1", 1e3, 123.5, D("12.25"), "0.125"]
 CONTAINERS = [[], [1], ["1", 2], [1, 1], [1, "a"], [None], [[1], [2]], (1, 2), (1, "a"), ("x",), (), {1, 2}, {"a"}, {"a": 1}, {"a": "1", "b": 2},
               {1: "x"}, {}, [{"v": 1}], {"v": "3"}, {"v": "x"}, {"v": 3, "w": "ab"}, "[1, 2]", "1,2", '{"a": 1}', "a=1", [1.5, "2.5"], [0, 5, 10],
               {"k": [1, "2"]}, {"k": ["x"]}, [(1, "a")], [[1, "a"]], ((1, "a"), (2, "b"))]
@@ -39,6 +41,8 @@ def rnd_leaf(rng):
             cons.append(gen.con(rng.choice(["le", "lt"]), hi))
         if origin == "int" and rng.random() < 0.3:
             cons.append(gen.con("multiple_of", rng.choice([2, 3, 5])))
+        if origin in ("float", "Decimal") and rng.random() < 0.3:
+            cons = [c for c in cons if c["c"] in ("ge", "gt")] + [gen.con("max_digits", rng.choice([2, 3, 4]))]
         if rng.random() < 0.15:
             c = gen.con("enum", None, vals=[1, 2, 3] if origin == "int" else [0.5, 2.0] if origin == "float" else [D("1.5"), D("6")])
             c["py"] = [1, 2, 3] if origin == "int" else [0.5, 2.0] if origin == "float" else [D("1.5"), D("6")]
